@@ -1,12 +1,12 @@
 package csnode
 
 import (
-	"time"
 	"encoding/json"
 	"fmt"
 	"math/rand"
 	"os"
 	"testing"
+	"time"
 )
 
 func TestDebugNode(t *testing.T) {
